@@ -79,17 +79,19 @@ func verifRegion(r hrpc.RegionInfo) VerifRegion {
 	return v
 }
 
-// VerifSnapshot returns the contents of the client's caches.
-func VerifSnapshot(cl any) VerifState {
+// VerifSnapshot returns the contents of the client's caches. It never blocks:
+// ok is false if one of the cache locks is held at the moment.
+func VerifSnapshot(cl any) (st VerifState, ok bool) {
 	c := cl.(*client)
-	var st VerifState
 	select {
 	case <-c.done:
 		st.Closed = true
 	default:
 	}
 	if c.regions.regions != nil {
-		c.regions.m.RLock()
+		if !c.regions.m.TryRLock() {
+			return st, false
+		}
 		if enum, err := c.regions.regions.SeekFirst(); err == nil {
 			for {
 				_, v, err := enum.Next()
@@ -103,7 +105,9 @@ func VerifSnapshot(cl any) VerifState {
 		c.regions.m.RUnlock()
 	}
 	if c.clients.regions != nil {
-		c.clients.m.RLock()
+		if !c.clients.m.TryRLock() {
+			return st, false
+		}
 		for rc, regs := range c.clients.regions {
 			vc := VerifConn{Addr: rc.Addr(), Ptr: rc}
 			for r := range regs {
@@ -113,7 +117,7 @@ func VerifSnapshot(cl any) VerifState {
 		}
 		c.clients.m.RUnlock()
 	}
-	return st
+	return st, true
 }
 
 // VerifSpecialRegions returns the meta / admin pseudo regions of a client.
